@@ -358,8 +358,9 @@ def execute(case, force_subprocess=False):
             want = expected            # file holds header + code exactly
         else:
             header, rest = clidrv.split_header(out)
-            got = rest
-            want = [t + "\n" for t in expected]   # print() adds one newline
+            # what is printed is the text; how many newline characters end the stream (print() adds one) is not part of the property
+            got = rest.rstrip("\n") + "\n"
+            want = [t.rstrip("\n") + "\n" for t in expected]
         if header is None:
             viol.append(core.viol("header_missing_or_malformed", case["out"], shape, (out or "")[:200]))
         elif got not in want:
